@@ -461,3 +461,216 @@ impl Campaign for MacroCampaign {
         }
     }
 }
+
+
+// ---------------------------------------------------------------------------
+// C18 (process-global wrappers): racing set_global_default in a fresh process
+
+#[derive(Serialize, Deserialize, Clone, Debug)]
+pub struct RaceCase {
+    pub setters: u8,
+    pub readers: u8,
+    /// per-thread spin before the call (desynchronises the race a little)
+    pub spins: Vec<u16>,
+}
+
+#[derive(Serialize, Deserialize, Clone, Debug, Default)]
+pub struct RaceObs {
+    /// prefix of the client each reader/setter saw afterwards (via a macro line), per thread
+    pub seen_prefix: Vec<Option<String>>,
+    /// pointer identity of get_global_default() per thread after the race
+    pub ptrs: Vec<Option<usize>>,
+    /// readers: observations made *during* the race (is_set, get ptr)
+    pub early: Vec<(bool, Option<usize>)>,
+    pub final_ptr: Option<usize>,
+    pub final_prefix: Option<String>,
+    pub emitted_per_client: Vec<usize>,
+    pub panics: Vec<String>,
+}
+
+pub fn race_child_main() -> i32 {
+    use std::sync::{Arc, Barrier, Mutex};
+    util::install_quiet_panic_hook();
+    let mut input = String::new();
+    if std::io::stdin().read_to_string(&mut input).is_err() {
+        return 3;
+    }
+    let case: RaceCase = match serde_json::from_str(&input) {
+        Ok(c) => c,
+        Err(_) => return 3,
+    };
+    let n_set = case.setters.max(1) as usize;
+    let n_read = case.readers as usize;
+    let handles: Vec<ScriptedSinkHandle> = (0..n_set).map(|_| ScriptedSinkHandle::new()).collect();
+    let clients: Vec<Mutex<Option<cadence::StatsdClient>>> = handles
+        .iter()
+        .enumerate()
+        .map(|(i, h)| {
+            Mutex::new(Some(h.build_client(&ClientCfg {
+                prefix: format!("client{}", i),
+                tags: vec![],
+                container: None,
+                handler: false,
+            })))
+        })
+        .collect();
+    let clients = Arc::new(clients);
+    let barrier = Arc::new(Barrier::new(n_set + n_read));
+    let obs = Arc::new(Mutex::new(RaceObs {
+        seen_prefix: vec![None; n_set + n_read],
+        ptrs: vec![None; n_set + n_read],
+        early: vec![(false, None); n_read],
+        ..RaceObs::default()
+    }));
+    let mut joins = Vec::new();
+    for t in 0..(n_set + n_read) {
+        let clients = clients.clone();
+        let barrier = barrier.clone();
+        let obs = obs.clone();
+        let spin = case.spins.get(t).copied().unwrap_or(0);
+        joins.push(std::thread::spawn(move || {
+            let r = util::catch(|| {
+                barrier.wait();
+                for _ in 0..spin {
+                    std::hint::spin_loop();
+                }
+                if t < n_set {
+                    let c = clients[t].lock().unwrap().take().unwrap();
+                    cadence_macros::set_global_default(c);
+                } else {
+                    let is = cadence_macros::is_global_default_set();
+                    let g = cadence_macros::get_global_default().ok().map(|a| Arc::as_ptr(&a) as usize);
+                    obs.lock().unwrap().early[t - n_set] = (is, g);
+                }
+            });
+            if let Err(p) = r {
+                obs.lock().unwrap().panics.push(p);
+            }
+        }));
+    }
+    for j in joins {
+        let _ = j.join();
+    }
+    // after the race: every thread's view (sequentially, from fresh threads)
+    for t in 0..(n_set + n_read) {
+        let obs2 = obs.clone();
+        let _ = std::thread::spawn(move || {
+            let g = cadence_macros::get_global_default().ok();
+            let mut o = obs2.lock().unwrap();
+            o.ptrs[t] = g.as_ref().map(|a| Arc::as_ptr(a) as usize);
+        })
+        .join();
+    }
+    let fin = cadence_macros::get_global_default().ok();
+    {
+        let mut o = obs.lock().unwrap();
+        o.final_ptr = fin.as_ref().map(|a| Arc::as_ptr(a) as usize);
+    }
+    // one macro call: exactly one client's sink must receive it
+    for h in &handles {
+        h.arm(SinkOut::Accept(0), 1);
+    }
+    let r = util::catch(|| {
+        cadence_macros::statsd_count!("race.key", 1i64);
+    });
+    if let Err(p) = r {
+        obs.lock().unwrap().panics.push(format!("macro after the race: {}", p));
+    }
+    let mut o = obs.lock().unwrap();
+    for h in &handles {
+        let (em, _) = h.take();
+        if let Some(line) = em.first() {
+            o.final_prefix = line.split('.').next().map(|s| s.to_string());
+        }
+        o.emitted_per_client.push(em.len());
+    }
+    let out = serde_json::to_string(&*o).unwrap();
+    let _ = std::io::stdout().write_all(out.as_bytes());
+    0
+}
+
+pub struct GlobalRace;
+
+impl Campaign for GlobalRace {
+    type Case = RaceCase;
+    fn name(&self) -> &'static str {
+        "global-default-race-process"
+    }
+    fn max_shrink_iters(&self) -> u32 {
+        30
+    }
+    fn strategy(&self, _tier: Tier) -> BoxedStrategy<RaceCase> {
+        (1u8..=4, 0u8..=4, prop::collection::vec(prop_oneof![Just(0u16), 0u16..200, 0u16..5000], 8))
+            .prop_map(|(setters, readers, spins)| RaceCase { setters, readers, spins })
+            .boxed()
+    }
+    fn check(&self, case: &RaceCase, _ctx: &Ctx) -> Outcome {
+        let exe = match std::env::current_exe() {
+            Ok(e) => e,
+            Err(e) => {
+                util::mark_inconclusive(&e.to_string());
+                return Outcome::ok();
+            }
+        };
+        let child = Command::new(exe).arg("race-child").stdin(Stdio::piped()).stdout(Stdio::piped()).stderr(Stdio::piped()).spawn();
+        let mut child = match child {
+            Ok(c) => c,
+            Err(e) => {
+                util::mark_inconclusive(&format!("cannot spawn: {}", e));
+                return Outcome::ok();
+            }
+        };
+        if let Some(mut stdin) = child.stdin.take() {
+            let _ = stdin.write_all(&serde_json::to_vec(case).unwrap_or_default());
+        }
+        let out = match child.wait_with_output() {
+            Ok(o) => o,
+            Err(e) => {
+                util::mark_inconclusive(&e.to_string());
+                return Outcome::ok();
+            }
+        };
+        let mut bad: Vec<String> = Vec::new();
+        if !out.status.success() {
+            bad.push(format!("child process died: {:?} {}", out.status, String::from_utf8_lossy(&out.stderr).chars().take(300).collect::<String>()));
+        }
+        let obs: RaceObs = serde_json::from_slice(&out.stdout).unwrap_or_default();
+        if bad.is_empty() {
+            for p in &obs.panics {
+                bad.push(format!("panic: {}", p));
+            }
+            let fp = obs.final_ptr;
+            if fp.is_none() {
+                bad.push("after all setters returned, get_global_default() reports 'not set'".into());
+            }
+            for (t, p) in obs.ptrs.iter().enumerate() {
+                if *p != fp {
+                    bad.push(format!("thread {} sees instance {:?}, the final instance is {:?}", t, p, fp));
+                }
+            }
+            for (i, (is, g)) in obs.early.iter().enumerate() {
+                if let Some(p) = g {
+                    if Some(*p) != fp {
+                        bad.push(format!("reader {} got instance {:#x} during the race, the winner is {:?}", i, p, fp));
+                    }
+                    let _ = is;
+                }
+            }
+            let total: usize = obs.emitted_per_client.iter().sum();
+            let receivers = obs.emitted_per_client.iter().filter(|n| **n > 0).count();
+            if total != 1 || receivers != 1 {
+                bad.push(format!("one macro call after the race produced emits {:?} over the candidate clients", obs.emitted_per_client));
+            }
+        }
+        let racing = case.setters >= 2;
+        Outcome {
+            verdict: match bad.first() {
+                None => Ok(()),
+                Some(b) => Err(b.clone()),
+            },
+            nontrivial: racing,
+            fingerprint: util::hash_json(case),
+            classes: if racing { vec!["racing setters in one process (OS-scheduled)"] } else { vec!["single setter"] },
+        }
+    }
+}
